@@ -288,6 +288,10 @@ def run(chk, replay=None):
     kernel_tie_leg(chk, "lef_write")      # LefWriter::write_layer_geom / write_geom / write_port / write_pin / write_via / write_site / write_units / write_density .. generated from lef21/src/write.rs = the lines of Lef/LefWrite.v (Properties/KernelsLef.v)
     kernel_tie_leg(chk, "lef_write_lib")  # LefWriter::write_macro / format_numeric_prop_def / write_lib (the whole file) = write_macro / write_lib_lines of Lef/LefWrite.v, lines and failure alike
     kernel_tie_leg(chk, "lef_parse")      # LefParser token helpers and parse_density generated from lef21/src/read.rs = Lef/LefParse.v (Properties/KernelsLef.v)
+    kernel_tie_leg(chk, "lef_parse2")     # LefParser::parse_units / parse_site_def / parse_macro_class / parse_property / parse_geometry .. (Gen/KernelsLefRead2Gen.v) = Lef/LefParse.v
+    kernel_tie_leg(chk, "lef_parse3")     # LefParser::parse_layer_geometries / parse_via_shape / parse_via_layer_geometries / parse_obstructions / parse_port / parse_property_definitions = Lef/LefParse.v
+    kernel_tie_leg(chk, "lef_parse_lib")  # LefParser::parse_pin, the whole function = parse_pin / pin_loop of Lef/LefParse.v
+    kernel_tie_leg(chk, "lef_parse_macro")  # LefParser::parse_macro, the whole function = parse_macro / macro_loop of Lef/LefParse.v
     chk.assumptions += [
         "rust_decimal's Decimal::from_str / Display / PartialEq are an external library: specified in Lef/LefDec.v from its source and validated by the correspondence",
         "std formatting (`write!`, Display of char and integers) and derive_builder `build()` are modelled by their documented behaviour",
